@@ -114,6 +114,8 @@ where
                         let mut wait_for_fingerprints = true;
                         loop {
                             if pending.is_empty() {
+                                #[cfg(getong_stateright_verif)]
+                                crate::job_market::verif::yield_point("before_pop");
                                 pending = {
                                     let jobs = job_broker.pop();
                                     if jobs.is_empty() {
@@ -207,6 +209,8 @@ where
                                 }
                             }
 
+                            #[cfg(getong_stateright_verif)]
+                            crate::job_market::verif::yield_point("after_block");
                             // Step 2: Share work.
                             if pending.len() > 1 && thread_count > 1 {
                                 job_broker.split_and_push(&mut pending);
